@@ -3,7 +3,7 @@ import json, re, math, struct
 from common import *
 import impl, l0
 
-THMS = ["C06_single_quoted", "C06_double_quoted", "C06_one_token", "C06_int_exact"]
+THMS = ["C06_escape_evaluation_refuted", "C06_single_quoted", "C06_double_quoted", "C06_one_token", "C06_int_exact"]
 ALPHA = ["'", '"', "\\", "\r", "\n", "\x00", ";", "x", "0", "7", "N", "{", "u", "a", " ", "é", "-", "/", "*", "%", "\t", "中"]
 HEADER = ("From Coq Require Import List NArith Bool.\nFrom MoSql Require Import Model.Lit Model.Num.\nImport ListNotations.\nOpen Scope N_scope.\n"
           "Definition seqb (x y : list N) : bool := if list_eq_dec N.eq_dec x y then true else false.\n"
